@@ -77,6 +77,21 @@ def harness(cmd, cases, workdir, timeout_ms=10000, tag=None):
     return res
 
 
+def harness_file(cmd, fin, workdir, timeout_ms=10000, tag=None):
+    """Like harness() but the cases are already in ndjson file `fin`; yields result dicts (streaming)."""
+    build_harness()
+    tag = tag or cmd
+    fout = os.path.join(workdir, f"{tag}.out.ndjson")
+    p = subprocess.run([HARNESS_BIN, "run", cmd, fin, fout, "--timeout-ms", str(timeout_ms)],
+                       stdout=subprocess.PIPE, stderr=subprocess.PIPE, text=True)
+    if p.returncode != 0:
+        raise ToolError(f"harness run {cmd} failed: {p.stderr[-2000:]}")
+    with open(fout) as f:
+        for l in f:
+            if l.strip():
+                yield json.loads(l)
+
+
 class TlcResult:
     def __init__(self):
         self.ok = False            # TLC finished without reporting an error
